@@ -247,6 +247,15 @@ def check(prop, tier):
             tgt.setdefault(k, []).append((r, v))
         if len(samples) < 5 and r.get("nontrivial") and "sample" in r:
             samples.append(r["sample"])
+    if hasattr(mod, "post_batch"):
+        extra_v, extra_p = mod.post_batch(results, tier, verif_seed)
+        for k, v in extra_p.items():
+            probes[k] = probes.get(k, 0) + v
+        for r, v in extra_v:
+            k = v["class_key"]
+            r["violations"].append(v)
+            tgt = viol_known if is_known(prop, k, kf) else viol_new
+            tgt.setdefault(k, []).append((r, v))
     if not samples and results:
         samples.append(results[0].get("sample", {"seed": results[0]["seed"]}))
 
